@@ -22,6 +22,7 @@ FINDING_LIST = "C02-no-list-support"
 
 
 def run(c):
+    c.go2coq_sources = ["filters.go", "filters_types.go", "filters_state.go"]   # private translator build: another family's generator cannot break this check
     c.rule = ("every documented predicate x argument as a single-capture rule, a `$*xs` rule and a statement-capture rule over "
               "172 expression shapes (all type classes, constants, aliases, generics), 30 argument lists, 12 statements and 37 "
               "sink contexts; evaluations count (rule, site) pairs; a case is distinct by (predicate+argument, rule kind, site) "
